@@ -133,6 +133,23 @@ static void product(report& r)
         }
     }
 
+    // a multi-channel integrand with exactly one channel still draws the channel number
+    for (sz calls : {sz(1), sz(4)})
+    for (int pat : {0, 1, 3})
+    {
+        std::string const id = base + " single_channel calls=" + std::to_string(calls) + " pattern=" + std::to_string(pat);
+        if (!r.want(id)) continue;
+        r.eval();
+        CE gen; gen.seed(31);
+        vf::pl_map<T> map; map.split = {T(0.5)}; map.dims = 2;
+        std::vector<std::uint64_t> marks;
+        marks.clear(); g_marks = &marks; CE::draws() = 0;
+        (void) hep::multi_channel_iteration(hep::make_multi_channel_integrand<T>(pattern_mc_fn<T>{pattern_fn<T>{pat}, false}, 2, map, 2, 1), calls, std::vector<T>{T(1)}, gen);
+        g_marks = nullptr;
+        judge<T, E>(r, id, calls, 3, marks, CE::draws());
+        r.distinct(vf::hash_str(id));
+    }
+
     // stored generator == initial generator advanced by calls x per-call (plain standard engine)
     for (sz d : {sz(1), sz(3)})
     for (int pat : {1, 3})
